@@ -22,7 +22,7 @@ def cut_set(n, hlen, quick):
     return sorted(s)
 
 
-def fault_script(rtype, fault, second=None):
+def fault_script(rtype, fault, second=None, close_on_none=False):
     if rtype == 'worker-in-ctx':
         # the bystander lives in the context the faulty request addresses (its requests are handled by the context's process)
         by = {'op': 'create', 'var': 'by', 'kind': 'PR', 'target': None, 'ctor': {'context': '<c11-ctx>'}, 'tag': 'bystander'}
@@ -47,6 +47,10 @@ def fault_script(rtype, fault, second=None):
                {'op': 'call', 'var': 'again', 'method': 'call', 'args': ['c'], 'timeout': 8, 'tag': 'ctx-again-result', 'stop_on_hang': False},
                {'op': 'call', 'var': 'again', 'method': 'wait', 'args': [5], 'stop_on_hang': False}]
     sc += [{'op': 'heal_server', 'tag': 'heal'}]
+    if close_on_none:
+        # the same on a server configured to stop on a None request (the default of the command-line server): a client which
+        # goes away is not such a request
+        sc = [{'op': 'respawn_server', 'close_on_none': True}] + sc + [{'op': 'respawn_server'}]
     return sc
 
 
@@ -78,6 +82,14 @@ def run(ctx):
         plan.append({'rtype': rt, 'fault': f, 'where': 'complete-request-reset-at-once'})
         jobs.append({'script': fault_script(rt, {'kind': 'garbage'})})
         plan.append({'rtype': rt, 'fault': {'kind': 'garbage'}, 'where': 'garbage-payload'})
+    for rt in (('worker',) if ctx.quick else RTYPES):
+        n, hlen = lens[rt]
+        for cut in (range(0, hlen + 2) if ctx.quick else sorted(set(range(0, hlen + 8)) | set(range(n - 3, n + 1)))):
+            for ending in ('FIN', 'RST'):
+                f = {'kind': 'cut', 'cut': cut, 'ending': ending}
+                jobs.append({'script': fault_script(rt, f, close_on_none=True)})
+                where = 'connect' if cut == 0 else ('header' if cut < hlen else ('payload' if cut < n else 'complete-request'))
+                plan.append({'rtype': rt, 'fault': f, 'where': 'server-stopping-on-None/' + where, 'close_on_none': True})
     for rt in ('worker', 'pworker'):
         for kind in ('ctrl-never-connect', 'ctrl-connect-close', 'close-after-info', 'close-only-data', 'close-only-ctrl'):
             for ending in ('FIN', 'RST'):
@@ -139,7 +151,7 @@ def run(ctx):
 
 def replay(ctx, rec):
     c = rec['case']
-    sc = fault_script(c['rtype'], c['fault'], second=tuple(c['second']) if c.get('second') else None)
+    sc = fault_script(c['rtype'], c['fault'], second=tuple(c['second']) if c.get('second') else None, close_on_none=bool(c.get('close_on_none')))
     obs = land.run_cases([{'script': sc}], case_timeout=120)[0]
     for op, st in zip(sc, obs.get('steps', [])):
         print(op.get('tag', op['op']), str(st)[:160])
